@@ -274,13 +274,27 @@ Qed.
 
 Definition fault_ok (ft : fault) : Prop :=
   match ft with FStatus code => is_2xx code = false | _ => True end.
-Definition documented (e : exn) : Prop :=
-  match e with XKey | XConn | XResp | XServer _ | XConflict => True | _ => False end.
 Definition is_contains (o : op) : Prop := match o with ContainsId _ | ContainsObj _ => True | _ => False end.
+Definition is_add (o : op) : Prop := match o with Add _ => True | _ => False end.
+Definition is_plain_discard (o : op) : Prop := match o with Discard _ false => True | _ => False end.
+(* the error classes a faulted operation may end in.  KeyError - the store's "missing id" / "duplicate id" signal -
+   only where the server said so: a 404, a 409 answering add's PUT, or (discard without safe_delete) a HEAD
+   answer that carries no revision *)
+Definition documented (o : op) (ft : fault) (e : exn) : Prop :=
+  match e with
+  | XKey => ft = FStatus 404 \/ (ft = FStatus 409 /\ is_add o) \/ (ft = FGarbage /\ is_plain_discard o)
+  | XConn | XResp | XServer _ | XConflict => True
+  | _ => False
+  end.
+Ltac fin :=
+  cbn;
+  repeat match goal with |- context [Nat.eqb ?c ?n] => destruct (Nat.eqb_spec c n); subst end;
+  cbn; try exact I; try (left; reflexivity); try (right; left; split; [reflexivity|exact I]);
+  try (right; right; split; [reflexivity|exact I]).
 (* the outcome of an operation one of whose requests was answered by the fault ft *)
 Definition faulted_outcome (o : op) (ft : fault) (out : outcome) : Prop :=
   match out with
-  | OErr e => documented e
+  | OErr e => documented o ft e
   | OBool b => is_contains o /\ ((b = false /\ ft = FStatus 404) \/ (b = true /\ ft = FGarbage))
   | _ => False
   end.
@@ -320,9 +334,6 @@ Proof.
     destruct (serve c sv (mkReq m url rv b)); exact Hs.
 Qed.
 
-Lemma documented_map404 e : documented e -> documented (if is_code e 404 then XKey else e).
-Proof. destruct (is_code e 404); [intros _; exact I|trivial]. Qed.
-
 (* get_doc never modifies the server; when its request is the faulted one it fails with a documented error *)
 Lemma get_doc_sv c f n w i : w_sv (fst (get_doc c f n w i)) = w_sv w.
 Proof.
@@ -335,16 +346,15 @@ Proof.
   destruct (String.eqb (c_src oc) (generate_source c i0)); reflexivity.
 Qed.
 Lemma get_doc_fault c k ft w i : fault_ok ft ->
-  exists e, snd (get_doc c (Some (k, ft)) k w i) = inl e /\ documented e.
+  exists e, snd (get_doc c (Some (k, ft)) k w i) = inl e /\ forall o, documented o ft e.
 Proof.
   intros Hok. unfold get_doc. rewrite send_hit, (do_request_fault GET ft Hok).
-  destruct ft as [code| |[]]; cbn [snd]; eexists; (split; [reflexivity|]); try exact I.
-  apply documented_map404. exact I.
+  destruct ft as [code| |[]]; cbn [snd]; eexists; (split; [reflexivity|]); intros o; fin.
 Qed.
 
 Lemma fetch_all_fault c k ft : fault_ok ft -> forall ids n w acc, n <= k ->
   let r := fetch_all c (Some (k, ft)) n w ids acc in
-  w_sv (world_of r) = w_sv w /\ (k < sent_of r -> exists e, outcome_of r = OErr e /\ documented e).
+  w_sv (world_of r) = w_sv w /\ (k < sent_of r -> exists e, outcome_of r = OErr e /\ forall o, documented o ft e).
 Proof.
   intros Hok. induction ids as [|i rest IH]; intros n w acc Hn; cbn [fetch_all].
   - split; [reflexivity|]. unfold sent_of. cbn. lia.
@@ -375,13 +385,12 @@ Proof.
     destruct k; [|destruct (send c _ 0 _ _) as [? ?]; destruct (do_request PUT n) as [?|rp];
                   [cbn; lia|destruct (reply_rev rp); cbn; lia]].
     rewrite send_hit, (do_request_fault PUT ft Hok). intros _.
-    destruct ft as [code| |[]]; cbn; (split; [reflexivity|]); try exact I.
-    destruct (Nat.eqb code 409); exact I.
+    destruct ft as [code| |[]]; cbn; (split; [reflexivity|]); fin.
   - (* get *) unfold op_get. pose proof (get_doc_sv c (Some (k, ft)) 0 w i) as Hsv.
     destruct k.
     + destruct (get_doc_fault c 0 ft w i Hok) as (e & He & Hd).
       destruct (get_doc c (Some (0, ft)) 0 w i) as [w' [e'|y]]; cbn in He; [|discriminate].
-      injection He as ->. intros _. cbn in *. split; [exact Hsv|exact Hd].
+      injection He as ->. intros _. cbn in *. split; [exact Hsv|apply Hd].
     + destruct (get_doc c (Some (S k, ft)) 0 w i) as [w' [e'|y]]; cbn; lia.
   - (* modify *) destruct (nth_error (heap (w_cl w)) x); cbn; lia.
   - (* commit *) unfold op_commit. destruct (nth_error (heap (w_cl w)) x) as [ce|]; [|cbn; lia].
@@ -391,31 +400,27 @@ Proof.
     destruct k; [|destruct (send c _ 0 _ _) as [? ?]; destruct (do_request PUT n) as [?|rp];
                   [cbn; lia|destruct (reply_rev rp); cbn; lia]].
     rewrite send_hit, (do_request_fault PUT ft Hok). intros _.
-    destruct ft as [code| |[]]; cbn; (split; [reflexivity|]); try exact I.
-    destruct (Nat.eqb code 409); [exact I|]. destruct (Nat.eqb code 404); exact I.
+    destruct ft as [code| |[]]; cbn; (split; [reflexivity|]); fin.
   - (* update *) unfold op_update. destruct (nth_error (heap (w_cl w)) x) as [ce|]; [|cbn; lia].
     destruct (String.eqb (c_src ce) ""); [cbn; lia|].
     destruct (parse_source (c_src ce)) as [url|]; [|cbn; lia].
     destruct k; [|destruct (send c _ 0 _ _) as [? ?]; destruct (do_request GET n) as [?|[?|p]];
                   [cbn; lia|cbn; lia|destruct p; cbn; lia]].
     rewrite send_hit, (do_request_fault GET ft Hok). intros _.
-    destruct ft as [code| |[]]; cbn; (split; [reflexivity|]); try exact I.
-    destruct (Nat.eqb code 404); exact I.
+    destruct ft as [code| |[]]; cbn; (split; [reflexivity|]); fin.
   - (* discard *) unfold op_discard. destruct (nth_error (heap (w_cl w)) x) as [ce|]; [|cbn; lia].
     assert (Hdel : forall n w0, w_sv w0 = w_sv w -> k = n ->
               let r := delete_phase c (Some (k, ft)) n w0 x (c_id ce) (doc_url c (c_id ce)) in
               forall rv, w_sv (fst (fst (r rv))) = w_sv w /\ faulted_outcome (Discard x safe) ft (snd (fst (r rv)))).
     { intros n w0 Hw0 <- r rv. subst r. unfold delete_phase. rewrite send_hit, (do_request_fault DELETE ft Hok).
-      destruct ft as [code| |[]]; cbn; (split; [exact Hw0|]); try exact I.
-      destruct (Nat.eqb code 404); [exact I|]. destruct (Nat.eqb code 409); exact I. }
+      destruct ft as [code| |[]]; cbn; (split; [exact Hw0|]); fin. }
     assert (Hdel_sent : forall n w0 rv, snd (delete_phase c (Some (k, ft)) n w0 x (c_id ce) (doc_url c (c_id ce)) rv) = S n).
     { intros n w0 rv. unfold delete_phase. destruct (send c _ n _ _) as [? nr]. now destruct (do_request DELETE nr). }
     destruct (sassoc (doc_url c (c_id ce)) (revs (w_cl w))) as [r|] eqn:Er; destruct safe.
     + rewrite Hdel_sent. intros Hk. assert (k = 0) by lia. now apply Hdel.
     + destruct k.
       * rewrite send_hit, (do_request_fault HEAD ft Hok). intros _.
-        destruct ft as [code| |[]]; cbn; (split; [reflexivity|]); try exact I.
-        destruct (Nat.eqb code 404); exact I.
+        destruct ft as [code| |[]]; cbn; (split; [reflexivity|]); fin.
       * rewrite send_miss by lia.
         pose proof (serve_readonly c (w_sv w) (mkReq HEAD (doc_url c (c_id ce)) None None) (or_intror eq_refl)) as Hro.
         rewrite Hro. destruct (do_request HEAD _) as [e|[[r'|]|p]]; try (cbn; lia).
@@ -423,8 +428,7 @@ Proof.
     + cbn. lia.
     + destruct k.
       * rewrite send_hit, (do_request_fault HEAD ft Hok). intros _.
-        destruct ft as [code| |[]]; cbn; (split; [reflexivity|]); try exact I.
-        destruct (Nat.eqb code 404); exact I.
+        destruct ft as [code| |[]]; cbn; (split; [reflexivity|]); fin.
       * rewrite send_miss by lia.
         pose proof (serve_readonly c (w_sv w) (mkReq HEAD (doc_url c (c_id ce)) None None) (or_intror eq_refl)) as Hro.
         rewrite Hro. destruct (do_request HEAD _) as [e|[[r'|]|p]]; try (cbn; lia).
@@ -449,10 +453,10 @@ Proof.
     destruct k; [|destruct (send c _ 0 _ _) as [? nr]; destruct (do_request GET nr) as [e|[?|p]];
                   [cbn; lia|cbn; lia|destruct p; cbn; lia]].
     rewrite send_hit, (do_request_fault GET ft Hok). intros _.
-    destruct ft as [code| |[]]; cbn; (split; [reflexivity|]); exact I.
+    destruct ft as [code| |[]]; cbn; (split; [reflexivity|]); fin.
   - (* iter *) unfold op_iter. destruct k.
     + rewrite send_hit, (do_request_fault GET ft Hok). intros _.
-      destruct ft as [code| |[]]; cbn; (split; [reflexivity|]); exact I.
+      destruct ft as [code| |[]]; cbn; (split; [reflexivity|]); fin.
     + rewrite send_miss by lia.
       pose proof (serve_readonly c (w_sv w) (mkReq GET (base_url c ++ "/_all_docs") None None) (or_introl eq_refl)) as Hro.
       rewrite Hro. destruct (do_request GET _) as [e|[?|p]]; try (cbn; lia).
@@ -462,7 +466,7 @@ Proof.
       destruct (fetch_all c (Some (S k, ft)) 1 (mkWorld (w_sv w) (w_cl w)) ids []) as [[w' out] n'].
       cbn [fst snd] in *. intros Hk.
       assert (Hk' : S k < n') by (destruct out; exact Hk).
-      destruct (H2 Hk') as (e & -> & Hd). cbn [fst snd w_sv]. split; [exact H1|exact Hd].
+      destruct (H2 Hk') as (e & -> & Hd). cbn [fst snd w_sv]. split; [exact H1|apply Hd].
   - (* ext put *) cbn. lia.
   - (* ext del *) cbn. lia.
   - destruct Hb.
